@@ -53,6 +53,10 @@ class Analysis:
         return self.graphs.get(self.prog.func(qual))
 
 
+# obligations that are undecided on the reference tree itself (hand-confirmed), keyed (property, rule, instance)
+UNRESOLVED_ON_REFERENCE = set()
+
+
 def load_known():
     p = VERIF / 'known_findings.json'
     if not p.exists():
@@ -114,6 +118,9 @@ class Run:
 
     def count(self, name, n):
         self.counts[name] = n
+
+    def undecided(self):
+        return [i for i in self.items if i['status'] == 'unresolved' and (self.pid, i['rule'], i['instance']) not in UNRESOLVED_ON_REFERENCE]
 
     # ---- finishing
     def finish(self):
@@ -183,6 +190,14 @@ class Run:
             evdir = pathlib.Path(os.environ.get('PBV_EVIDENCE_DIR', '/tmp/pbv-evidence-scratch'))
         evdir.mkdir(exist_ok=True, parents=True)
         (evdir / f'{self.pid}.json').write_text(json.dumps(ev, indent=1, default=str))
+        # an obligation the analysis could not decide is not a pass: beyond the obligations that are undecided on the reference tree (frozen per property, each
+        # with its reason) the check ends inconclusive (exit 2, no VIOLATION line) - "cannot decide" must never look like "holds"
+        extra_unres = self.undecided()
+        if extra_unres and not viol:
+            for i in extra_unres[:5]:
+                print(f'ANALYSIS-ERROR property={self.pid}: undecided obligation {i["rule"]} {i["instance"]} at {i["loc"]}: {i["detail"]}')
+            print(f'== {self.pid}: INCONCLUSIVE, {len(extra_unres)} obligation(s) could not be decided ({wall:.2f}s)')
+            return 2
         print(f'== {self.pid}: {"VIOLATED" if viol else "holds on everything analysed"} ({wall:.2f}s)')
         return 1 if viol else 0
 
